@@ -35,12 +35,17 @@ def do_replay(ck, path, tag):
 
 
 def sig_trace(ev, prefix):
+    if ev.get("ev") == "render":
+        return f"trace:plushy:render:len{len(ev['genes'])}"
     if isinstance(ev.get("prog"), dict):
         return "trace:plushy:panic"
     return f"trace:plushy:len{len(ev['genes'])}"
 
 
 def what_trace(ev, prefix):
+    if ev.get("ev") == "render":
+        return (f"the printed form of a {len(ev['genes'])}-gene genome is not Render(genome): genes="
+                f"{json.dumps(ev['genes'])[:500]} printed tokens={json.dumps(ev['tokens'])[:500]}")
     if ev.get("ev") == "parse_flat":
         opens = sum(1 for g in ev["genes"] if g.get("o", 0) > 0)
         return (f"real translation of a deeply nested genome ({len(ev['genes'])} genes, {opens} block openers in a "
